@@ -43,7 +43,7 @@ REFUSABLE = ("diff", "interp", "min", "max", "derivative")
 POSD = {p: S.dimname("X", p) for p in S.POS}
 
 
-def grid_A(N, lazy_metrics=False):
+def grid_A(N, lazy_metrics=False, rules=None):
     from xgcm import Grid
 
     lay = {"X": S.POS, "Y": ("center", "left")}
@@ -57,7 +57,7 @@ def grid_A(N, lazy_metrics=False):
         ds = ds.chunk()
     with warnings.catch_warnings():
         warnings.simplefilter("ignore")
-        return Grid(ds, coords=S.grid_coords(lay), periodic=False, boundary="extend", autoparse_metadata=False,
+        return Grid(ds, coords=S.grid_coords(lay), periodic=False, autoparse_metadata=False, **(rules or dict(boundary="extend")),
                     metrics={("X",): ["dx_" + p for p in S.POS], ("Y",): ["dy_c", "dy_l"]})
 
 
@@ -232,6 +232,8 @@ def part_A(rec, tier, seed, fr, to, only=None):
     N = BOUNDS[tier]["N"]
     g = grid_A(N)
     glazy = grid_A(N, lazy_metrics=True)
+    # a second Grid over the same dataset with other Grid-level rules: handed the very same lazy variable
+    galt = grid_A(N, rules=dict(boundary={"X": "fill", "Y": "extend"}, fill_value={"X": 5.0, "Y": 0.0}))
     e_in = data_A(N, fr, seed)
     m = S.pos_len(fr, N)
     io = "inner" in (fr, to) or "outer" in (fr, to)
@@ -258,7 +260,7 @@ def part_A(rec, tier, seed, fr, to, only=None):
                     for lm in ((False, True) if op in ("derivative", "cumint", "integrate", "average") else (False,)):
                         idx += 1
                         case = dict(part="A", fr=fr, to=to, cx=list(cx), ct=list(ct), cy=list(cy), op=op, axis=axis, lm=lm)
-                        if only is not None and only != {k: v for k, v in case.items()} and only != dict(case, layout="x-first-float32") and only != dict(case, layout="dask-aux-coordinate") and not (op == "wide" and only == dict(case, axis=list(axis))):
+                        if only is not None and only != {k: v for k, v in case.items()} and only != dict(case, layout="x-first-float32") and only != dict(case, layout="dask-aux-coordinate") and only != dict(case, grid="alt-rules") and only != dict(case, layout="x-first-float32", grid="alt-rules") and not (op == "wide" and only == dict(case, axis=list(axis))):
                             continue
                         gg = glazy if lm else g
                         chunked_axis = len(cx) > 1 if (axis == "X" or axis == "mo" or axis == "nomo" or op in ("wide", "ufunc2d", "ufunc2d-par", "ufunc-io") or (isinstance(axis, list) and "X" in axis)) else False
@@ -323,8 +325,19 @@ def part_A(rec, tier, seed, fr, to, only=None):
                         if op not in ("ufunc", "wide", "multi", "ufunc2d", "ufunc2d-par", "ufunc-io") and idx % 3 == 0:
                             e2_in = (e_in * 3 + 1).rename("q2")
                             second = (lambda: call(gg, op, e2_in.chunk(chunks), axis, kw), lambda: call(gg, op, e2_in, axis, kw))
+                        plain = op not in ("ufunc", "wide", "multi", "ufunc2d", "ufunc2d-par", "ufunc-io")
+                        if plain and second is None and idx % 3 == 1 and op in OPS1 and "layout" not in case and not (chunked_axis and io):
+                            # another operation on the *same* lazy variable (same padding, same overlap) computed in the same
+                            # graph: neither kernel may disturb the block the other one reads
+                            op2_ = {"diff": "interp", "interp": "diff", "min": "diff", "max": "diff", "cumsum": "diff", "derivative": "interp", "cumint": "diff"}[op]
+                            second = (lambda: call(gg, op2_, e_in.chunk(chunks), axis, kw), lambda: call(gg, op2_, e_in, axis, kw))
                         check_lazy(rec, "simple-grid", case, build, eager, refuse, anych,
                                    threads=(tier == "thorough" or idx % 5 == 0), second=second)
+                        if plain and not lm and idx % 4 in (1, 3) and "dask-aux" not in case.get("layout", ""):
+                            # the same lazy variable on a Grid over the same dataset whose own rules differ
+                            src_ = e_t if case.get("layout") == "x-first-float32" else e_in
+                            check_lazy(rec, "simple-grid", dict(case, grid="alt-rules"), lambda: call(galt, op, src_.chunk(chunks), axis, kw),
+                                       lambda: call(galt, op, src_, axis, kw), refuse, anych)
 
 
 # ---------------------------------------------------------------------- (B) faces
@@ -383,6 +396,10 @@ def sched_cases(tier):
         cx = (m,) if io else ((2, m - 2) if m > 2 else (1, 1))
         for op in ("diff", "min", "cumsum"):
             cases.append(dict(part="C", fr=fr, to=to, op=op, cx=list(cx), ct=[1, 1], cy=[1, 1]))
+    for fr, to in (("center", "left"), ("center", "right"), ("left", "center"), ("right", "center")):
+        m = S.pos_len(fr, N)
+        for pair in ("diff+interp", "diff+min", "interp+max"):
+            cases.append(dict(part="C", fr=fr, to=to, op=pair, cx=[2, m - 2] if m > 2 else [1, 1], ct=[1, 1], cy=[2]))
     cases.append(dict(part="C", fr="center", to="left", op="ufunc-mo", cx=[1, 2, 1] if N == 4 else [2, 2, 1], ct=[1, 1], cy=[2]))
     cases.append(dict(part="C", fr="center", to="left", op="interp-xy", cx=[2, N - 2], ct=[2], cy=[1, 1]))
     return cases
@@ -401,6 +418,14 @@ def part_C(rec, tier, seed, case):
         elif op == "interp-xy":
             kw = dict(to="left", boundary="fill", fill_value=2.0)
             r, ee = g.interp(e_in.chunk(chunks), ["X", "Y"], **kw), g.interp(e_in, ["X", "Y"], **kw)
+        elif "+" in op:
+            # two different operations on the same lazy variable, computed together: one graph, every task order
+            import dask.array as dsa
+
+            lz = e_in.chunk(chunks)
+            pr = [(call(g, o_, lz, "X", dict(to=to)), call(g, o_, e_in, "X", dict(to=to))) for o_ in op.split("+")]
+            r = xr.DataArray(dsa.stack([a.data for a, _ in pr]))
+            ee = xr.DataArray(np.stack([b.values for _, b in pr]))
         else:
             r, ee = call(g, op, e_in.chunk(chunks), "X", dict(to=to)), call(g, op, e_in, "X", dict(to=to))
     G = Graph(r.data)
